@@ -1,3 +1,4 @@
+import struct
 """Shared pieces of the packet-level checks (C01 C02 C03 C04 C14): corpus of valid packets, mutators, TCP option correspondence."""
 import json, os, struct
 import common as C
@@ -17,6 +18,31 @@ def env_dependent(view_line):
     route) - such packets are not judged on what serialize() does"""
     first = view_line[2:].split(' | ')[0] if view_line[:2] in ('P ', 'Q ') else ''
     return first.startswith('IP ') and ' src_addr=x00000000 ' in first + ' '
+
+
+def ipv6_ext_packet(rng):
+    """(bytes, chain) of a well-formed IPv6 packet with 1-3 extension headers (hop-by-hop, routing, destination options,
+    authentication) in front of UDP or TCP with a valid checksum; chain = the next-header values in order"""
+    import dissect as D
+    k = rng.choice([1, 2, 2, 3, 3])
+    types = [rng.choice([0, 43, 60, 51]) for _ in range(k)]
+    if 0 in types:
+        types = [0] + [t for t in types if t != 0][:k - 1]          # hop-by-hop goes first
+    l4p = rng.choice([17, 6])
+    pl = bytes(rng.randrange(256) for _ in range(rng.choice([0, 1, 8, 33])))
+    src, dst = bytes(rng.randrange(256) for _ in range(16)), bytes(rng.randrange(256) for _ in range(16))
+    l4 = (struct.pack('>HHHH', 1234, 53, 8 + len(pl), 0) + pl) if l4p == 17 else (struct.pack('>HHIIBBHHH', 1234, 80, 1, 2, 0x50, 0x18, 100, 0, 0) + pl)
+    ck = 0xffff - D.csum16(src + dst + struct.pack('>IHBB', len(l4), 0, 0, l4p) + l4)
+    ck = ck or 0xffff
+    l4 = l4[:6] + struct.pack('>H', ck) + l4[8:] if l4p == 17 else l4[:16] + struct.pack('>H', ck) + l4[18:]
+    ext = b''
+    for j, t in enumerate(types):
+        nxt = types[j + 1] if j + 1 < len(types) else l4p
+        n8 = rng.choice([0, 0, 1]) if t != 51 else rng.choice([1, 2, 4])
+        body = bytes([1, 6 + 8 * n8 - 2]) + bytes(6 + 8 * n8 - 2) if t not in (43, 51) else bytes([0, 0]) + bytes(rng.randrange(1, 256) for _ in range(4 + 8 * n8))
+        ext += bytes([nxt, n8]) + body[:6 + 8 * n8]
+    b = struct.pack('>IHBB', 6 << 28, len(ext) + len(l4), types[0], 64) + src + dst + ext + l4
+    return b, types + [l4p]
 
 
 def corpus(rng, n):
